@@ -316,3 +316,26 @@ Proof.
   destruct Hcode as [Hc|[Hc|Hc]]; subst code;
     (eapply c13_monitor_model_SL; [intros t; reflexivity|exact ND1|exact ND2|exact H1|exact H2|exact S|exact Hf]).
 Qed.
+
+(* the corollary in replay terms: applying ONLY the decisions taken for the tasks ordered before x -- i.e. discarding
+   every placement of a later (lower-or-equal priority) task -- gives a cluster in which x still fits nowhere *)
+Theorem c13_discard_later L wle wok sok (LL : ledger_laws L wle wok sok) P e pre now (c : cluster L) offered ds cf i x :
+  NoDup (map (@t_id L) offered) -> NoDup (map fst c) -> cok L wok c -> tasks_ok L sok offered ->
+  schedule_full L P e pre now c offered = Ok (ds, cf) ->
+  nth_error (ordered L P now offered) i = Some x -> nth_error ds i = Some (DUnplaced (t_id x)) ->
+  exists V, replay L offered (virtual L P pre c) (firstn i ds) = Some V /\ task_fits L V x = false /\
+            Forall (fun d => exists y, In y (firstn i (ordered L P now offered)) /\ dec_task d = t_id y) (firstn i ds).
+Proof.
+  intros NDt NDc Hok Hts H Hx Hd.
+  destruct (c13_laws L wle wok sok LL P e pre now c offered ds cf i x Hok Hts H Hx Hd) as (V & R1 & Funfit & _).
+  pose proof (sort_by_perm (fun t : task L => p_key P now (t_attrs t)) offered) as Perm. fold (ordered L P now offered) in Perm.
+  exists V. split; [|split; [apply task_fits_false; exact Funfit|]].
+  - assert (NoDup (map fst (virtual L P pre c))) as NDv.
+    { unfold virtual. destruct (p_reset P pre); [|exact NDc]. rewrite map_map. cbn [fst]. exact NDc. }
+    eapply (run_replay L P e now offered); [apply nodup_functional; exact NDt| |exact NDv|exact R1].
+    intros y Hy. eapply Permutation_in; [apply Permutation_sym; exact Perm|].
+    rewrite <- (firstn_skipn i (ordered L P now offered)). apply in_or_app. left. exact Hy.
+  - pose proof (run_tasks L P e now _ _ _ _ R1) as Ht. apply Forall_forall. intros d Hdin.
+    assert (In (dec_task d) (map (@t_id L) (firstn i (ordered L P now offered)))) as X by (rewrite <- Ht; apply in_map; exact Hdin).
+    apply in_map_iff in X. destruct X as [y [E Hy]]. exists y. auto.
+Qed.
